@@ -456,6 +456,42 @@ def gen_ifc_design(rng):
   return "\n".join(L) + "\n"
 
 
+def gen_nested_ifc_design(rng):
+  """a sub-component whose ports are a LIST of interfaces each holding a LIST of nested interfaces (A outer x B inner, A != B most
+  of the time); every (a, b) element carries its own constant, the parent wires each element to its own top-level ports"""
+  w = rng.choice([4, 8, 16])
+  A, B = rng.choice([(2, 3), (3, 2), (1, 3), (3, 1), (2, 2), (1, 2), (2, 1)])
+  L = ["from pymtl3 import *", "class NInner(Interface):", "  def construct(s, T):", "    s.msg = InPort(T); s.rsp = OutPort(T)",
+       "class NOuter(Interface):", "  def construct(s, T, B):", "    s.sub = [NInner(T) for _ in range(B)]; s.tag = InPort(T)",
+       "class NLeaf(Component):", "  def construct(s, T, A, B, K):", "    s.ifc = [NOuter(T, B) for _ in range(A)]", "    @update", "    def up():"]
+  for a in range(A):
+    for b in range(B):
+      L.append(f"      s.ifc[{a}].sub[{b}].rsp @= (s.ifc[{a}].sub[{b}].msg ^ {(a * 5 + b * 3 + 1) % (1 << w)}) + s.ifc[{a}].tag + K")
+  L += ["class NTop(Component):", "  def construct(s):", f"    T = mk_bits({w})", f"    s.leaf = NLeaf(T, {A}, {B}, {rng.randrange(1, 4)})",
+        f"    s.msg = [[InPort(T) for _ in range({B})] for _ in range({A})]; s.rsp = [[OutPort(T) for _ in range({B})] for _ in range({A})]",
+        f"    s.tag = [InPort(T) for _ in range({A})]"]
+  for a in range(A):
+    L.append(f"    s.leaf.ifc[{a}].tag //= s.tag[{a}]")
+    for b in range(B):
+      L.append(f"    s.leaf.ifc[{a}].sub[{b}].msg //= s.msg[{a}][{b}]")
+      L.append(f"    s.rsp[{a}][{b}] //= s.leaf.ifc[{a}].sub[{b}].rsp")
+  return "\n".join(L) + "\n"
+
+
+def nested_ifc_stream(sh, backend, n, mech_fn, tag="nested-ifc"):
+  for case in range(n):
+    rng = sh.rng(tag, case)
+    src = gen_nested_ifc_design(rng)
+    mod = G.load_source(src, "nifc")
+    try:
+      top = mod.NTop(); top.elaborate()
+      judge_text(sh, backend, top, tag, src, (tag, case), mech_fn, ncyc=6, rng=rng, count_key="nested_ifc_array_designs_cosimulated")
+    except Exception as e:
+      sh.inconclusive("nested-ifc-stream-harness:" + type(e).__name__)
+    finally:
+      G.unload(mod)
+
+
 def ifc_stream(sh, backend, n, mech_fn, tag="ifc"):
   for case in range(n):
     rng = sh.rng(tag, case)
